@@ -585,6 +585,7 @@ def compile_assign(
 
     if (
         result.temp_variables
+        and ann is None
         and isinstance(target, Symbol)
         and can_rename_temp_variables(compiler, result, target)
     ):
